@@ -1094,7 +1094,8 @@ mod repr {
 
     fn to_f32_small(dword: DoubleWord) -> Approximation<f32, Sign> {
         let f = dword as f32;
-        if f.is_infinite() {
+        if f.is_infinite() || f == DoubleWord::MAX as f32 {
+            // rounded up to (at least) 2^DWORD_BITS, which the cast back below would saturate
             return Inexact(f, Sign::Positive);
         }
 
@@ -1109,6 +1110,10 @@ mod repr {
     fn to_f64_small(dword: DoubleWord) -> Approximation<f64, Sign> {
         const_assert!((DoubleWord::MAX as f64) < f64::MAX);
         let f = dword as f64;
+        if f == DoubleWord::MAX as f64 {
+            // rounded up to 2^DWORD_BITS, which the cast back below would saturate
+            return Inexact(f, Sign::Positive);
+        }
         let back = f as DoubleWord;
 
         match back.partial_cmp(&dword).unwrap() {
